@@ -1,7 +1,7 @@
-(* Props/C17.v — C17 property theorems only (single throttle; AcquireMulti is covered by these per queue,
-   its loop structure is exercised on the implementation — see DESIGN.md C17). *)
+(* Props/C17.v — C17 property theorems only: the single throttle, one attempt of AcquireMulti, and the composed
+   system of any number of AcquireMulti callers over any number of throttles (Model/C17_Multi.v). *)
 From Coq Require Import List Arith Bool Permutation.
-From Verif Require Import Model.C17_PQueue Proofs.C17.
+From Verif Require Import Model.C17_PQueue Model.C17_Multi Proofs.C17 Proofs.C17m.
 Import ListNotations.
 
 (* every reachable state, for every number of goroutines, every interleaving of their critical sections,
@@ -66,7 +66,65 @@ Print Assumptions C17_multi_success_all.
 Theorem C17_multi_forgetful_refuted : exists n lockI try acq k, lockI < n /\ attempt n lockI try = (acq, Some k) /\ ~ Permutation (cleanup_forgetful lockI k) acq.
 Proof. exact forgetful_leaks. Qed.
 
+(* ---------- the composed system: any number of throttles with any limits, any number of callers of AcquireMulti with
+   any overlapping (duplicate-free, as AcquireMulti makes them) queue lists, every schedule of their critical sections,
+   every answer of the priority function ---------- *)
+Definition reachable (maxes : list nat) (wants : list (list nat)) (s : sys) : Prop :=
+  Forall (@NoDup nat) wants /\ exists sch, crun (init_sys maxes wants) sch = Some s.
+Lemma reachable_inv maxes wants s : reachable maxes wants s -> GInv s.
+Proof. intros [Hw [sch H]]. eapply crun_inv; [apply init_sys_inv; exact Hw|exact H]. Qed.
+
+(* never more holders than the limit, on any throttle *)
+Theorem C17_multi_bound : forall maxes wants s k, reachable maxes wants s -> length (active (qs s k)) <= qmax (qs s k).
+Proof. intros maxes wants s k H. apply bound_everywhere. eapply reachable_inv; exact H. Qed.
+Print Assumptions C17_multi_bound.
+
+(* no hold-and-wait: a caller that waits on a throttle holds no slot of any throttle *)
+Theorem C17_multi_no_hold_and_wait : forall maxes wants s x k, reachable maxes wants s ->
+  In x (queued (qs s k)) -> forall j, ~ In x (active (qs s j)).
+Proof. intros maxes wants s x k H. apply no_hold_and_wait. eapply reachable_inv; exact H. Qed.
+Print Assumptions C17_multi_no_hold_and_wait.
+
+(* no deadlock: as long as some caller has not finished, some caller can take its next step - whatever the overlap
+   of the requested sets *)
+Theorem C17_multi_deadlock_free : forall maxes wants s, reachable maxes wants s ->
+  (exists x, st (cs s x) <> CDone) -> exists y, cstep s y 0 <> None.
+Proof. intros maxes wants s H. apply deadlock_free. eapply reachable_inv; exact H. Qed.
+Print Assumptions C17_multi_deadlock_free.
+
+(* no slot is lost: when every caller has finished, every throttle is empty; and a caller whose AcquireMulti has
+   returned holds a slot of every throttle it asked for *)
+Theorem C17_multi_all_done_empty : forall maxes wants s, reachable maxes wants s ->
+  (forall x, st (cs s x) = CDone) -> forall k, active (qs s k) = [] /\ queued (qs s k) = [].
+Proof. intros maxes wants s H. apply all_done_empty. eapply reachable_inv; exact H. Qed.
+Print Assumptions C17_multi_all_done_empty.
+Theorem C17_multi_hold_means_all : forall maxes wants s x, reachable maxes wants s ->
+  st (cs s x) = CHold -> forall k, In k (want (cs s x)) -> In x (active (qs s k)).
+Proof. intros maxes wants s x H. apply hold_means_all. eapply reachable_inv; exact H. Qed.
+Print Assumptions C17_multi_hold_means_all.
+
+(* completion is NOT unconditional: two throttles with one slot each, caller 0 asking for [0;1] and caller 1 for
+   [1;0]; under the schedule ll_pre followed by any number of rounds of ll_cyc - in which both callers move seven
+   times per round - neither AcquireMulti ever returns (both are back where they started, each holding its first
+   throttle).  Completion for all callers therefore rests on the scheduler not repeating this pattern for ever; the
+   harness checks completion under the Go scheduler, the theorems above give the part that holds for every schedule *)
+Theorem C17_multi_completion_needs_scheduler : forall n, exists s,
+  crun ll_s0 (ll_pre ++ rounds n) = Some s /\ st (cs s 0) = CTry 0 0 [0] /\ st (cs s 1) = CTry 0 0 [0].
+Proof.
+  intro n. destruct (livelock_schedule n) as (s & Hr & [_ Hc]). exists s. split; [exact Hr|]. now rewrite !Hc.
+Qed.
+Print Assumptions C17_multi_completion_needs_scheduler.
+
 Example C17_nonvacuous :
   run (init 2) [Acq 1; Acq 2; Acq 3; TryAcq 4; Acq 5; Rel 1 7; Cancel 3 0; Cancel 5 0; Rel 2 0]
   = Some (mkQ 2 [] []).
 Proof. reflexivity. Qed.
+
+(* non-vacuity of the composed system: the same two callers and throttles under another schedule - caller 0 backs
+   off and waits, caller 1 gets both, finishes and hands over, caller 0 gets both: everybody done, throttles empty *)
+Example C17_multi_nonvacuous :
+  let sch := map (fun x => (x, 0)) [0; 1; 0; 0; 0; 0; 1; 1; 1; 1; 1; 1; 1; 0; 0; 0; 0; 0; 0; 0] in
+  option_map (fun s => (map (fun x => st (cs s x)) [0; 1], map (fun k => (active (qs s k), queued (qs s k))) [0; 1]))
+             (crun ll_s0 sch) = Some ([CDone; CDone], [([], []); ([], [])]) /\
+  option_map (fun s => st (cs s 0)) (crun ll_s0 (firstn 6 sch)) = Some (CWait 1).
+Proof. vm_compute. split; reflexivity. Qed.
